@@ -84,10 +84,10 @@ const (
 type shape uint8
 
 const (
-	shSame      shape = iota // component-wise, equal cell counts
-	shScalarL                // scalar op aggregate
-	shScalarR                // aggregate op scalar
-	shMatMat                 // linear-algebra products
+	shSame    shape = iota // component-wise, equal cell counts
+	shScalarL              // scalar op aggregate
+	shScalarR              // aggregate op scalar
+	shMatMat               // linear-algebra products
 	shMatVec
 	shVecMat
 )
@@ -95,12 +95,12 @@ const (
 type ctorKind uint8
 
 const (
-	cConv     ctorKind = iota // scalar <- first component of the argument, converted
-	cSplat                    // vector <- one scalar
-	cComps                    // vector or matrix <- components of the arguments, in order
-	cMatDiag                  // matrix <- one scalar
-	cMatMat                   // matrix <- matrix
-	cAggregate                // array or struct <- one argument per element / member
+	cConv      ctorKind = iota // scalar <- first component of the argument, converted
+	cSplat                     // vector <- one scalar
+	cComps                     // vector or matrix <- components of the arguments, in order
+	cMatDiag                   // matrix <- one scalar
+	cMatMat                    // matrix <- matrix
+	cAggregate                 // array or struct <- one argument per element / member
 )
 
 type builtinVar uint8
